@@ -64,7 +64,7 @@ CHECKS = {
     "C18": ("TLC model check of Monitor.tla (all call histories up to the bound: Scoped, CleanWhenIdle, Complete), TLC-generated histories replayed on the real Layout and validated by MonitorTrace.tla (spec -> code -> spec), plus trace validation of MonitorTransparent",
             "TLC enumerates every history of <= 3 (quick) / 4 (thorough) calls x {with, without monitor} x {ok, empty-graph panic, malformed-edge panic} together with the delivery the model predicts; the driver replays each on the real Layout with a recording monitor per call and logs receivers and the package globals after every call; MonitorTrace.tla accepts the trace only if Monitor!CallOp explains every observation. Transparency: layouts with and without monitor must be bit-exactly equal. " + TRACE,
             "The package globals are read through an overlay shim. Histories are sequential (concurrency is C15).", "8/C18"),
-    "C19": ("TLC trace validation of geom.Shortest against the square-root-free geodesic criterion IsGeodesic (CorridorOps.tla), itself model-checked at small scope (Unique, NoShorterInside); corridors generated exhaustively by TLC from Corridor.tla",
+    "C19": ("TLC trace validation of geom.Shortest against the square-root-free geodesic criterion IsGeodesic (CorridorOps.tla), itself model-checked at small scope (Unique, NoShorterInside); corridors generated exhaustively by TLC from Corridor.tla; the implementation-shaped model of geom.Shortest (FunnelOps.tla: triangulation, dual graph, crossed diagonals, funnel over the fixed-capacity deque) is model-checked exhaustively on small corridors (Funnel.tla: IsShortest, Returns, TriangulationTiles, DualIsTree, DequeFits) and predicts every recorded triangulation and path exactly (layer 3, DRIFT diagnostics)",
             "Every well-formed corridor of 1-3 (thorough: 4) rectangles on a 5-column grid x lattice/half-lattice start and end points, plus seeded random corridors of up to 12 rectangles, is run through the real geom.Shortest; TLC checks end-to-start order, exact containment (integer door-crossing test) and tautness, which in a simple polygon characterises the unique shortest path. The criterion is validated by TLC itself: exactly one candidate vertex sequence satisfies it for every corridor and end-point pair of the bounded model, and no inside sequence is provably shorter. " + TRACE,
             "Integer coordinates (exact arithmetic); exhaustive below the bound, sampled beyond.", "8/C19"),
     "C20": ("TLC model check of the FitSpline recursion (SplineFit.tla: tiling, termination), replay of recorded Fit/Split hook events through the same step function, fixed-point containment predicate on recorded control points, and RootsOK on polynomials built from their roots by TLC (Solve.tla)",
